@@ -68,6 +68,10 @@ struct Cfg {
     keep_flda: bool,
     apid_filter: bool,
     glob: &'static str,
+    /// 0: every message built by adlt's own dlt_args! (little endian, u32 / i32 numbers, UTF-8 file name);
+    /// 1: "mixed wire encodings" - per message (chosen by its index) big or little endian payloads and every integer
+    ///    argument in another width / signedness (u8..u64, i8..i64 where the value fits), ASCII or UTF-8 file names
+    enc: u8,
 }
 
 fn base_msg(index: u32, ecu: &str, lc: u32, apid: &str, noar: u8, payload: Vec<u8>) -> DltMessage {
@@ -80,7 +84,51 @@ fn base_msg(index: u32, ecu: &str, lc: u32, apid: &str, noar: u8, payload: Vec<u
     m
 }
 
-fn build_msg(index: u32, it: &Item, trs: &[Tr]) -> DltMessage {
+
+// ---- raw argument encoder for the mixed wire encodings (independent of adlt's serialiser) ---------------------------
+enum A<'a> {
+    Asc(&'a [u8]),  // string, SCOD ASCII, bytes incl. the terminating 0
+    Utf(&'a [u8]),  // string, SCOD UTF-8
+    Num(u64),       // a non-negative integer: width / signedness picked by the encoder
+    Raw(&'a [u8]),
+}
+fn mix(x: u64) -> u64 {
+    let mut z = x.wrapping_add(0x9e3779b97f4a7c15);
+    z = (z ^ (z >> 30)).wrapping_mul(0xbf58476d1ce4e5b9);
+    z = (z ^ (z >> 27)).wrapping_mul(0x94d049bb133111eb);
+    z ^ (z >> 31)
+}
+/// (noar, payload, big_endian)
+fn enc_args(sel: u64, args: &[A]) -> (u8, Vec<u8>, bool) {
+    let be = mix(sel) & 1 == 1;
+    let mut p = Vec::new();
+    let put32 = |p: &mut Vec<u8>, v: u32| p.extend_from_slice(&if be { v.to_be_bytes() } else { v.to_le_bytes() });
+    let put16 = |p: &mut Vec<u8>, v: u16| p.extend_from_slice(&if be { v.to_be_bytes() } else { v.to_le_bytes() });
+    for (k, a) in args.iter().enumerate() {
+        match a {
+            A::Asc(b) => { put32(&mut p, 0x200); put16(&mut p, b.len() as u16); p.extend_from_slice(b); }
+            A::Utf(b) => { put32(&mut p, 0x200 | 0x8000); put16(&mut p, b.len() as u16); p.extend_from_slice(b); }
+            A::Raw(b) => { put32(&mut p, 0x400); put16(&mut p, b.len() as u16); p.extend_from_slice(b); }
+            A::Num(v) => {
+                // candidate encodings in which the value fits: (tyle, bytes, signed)
+                let mut c: Vec<(u32, usize, bool)> = vec![(4, 8, false), (4, 8, true)];
+                if *v <= u32::MAX as u64 { c.push((3, 4, false)); }
+                if *v <= i32::MAX as u64 { c.push((3, 4, true)); }
+                if *v <= u16::MAX as u64 { c.push((2, 2, false)); }
+                if *v <= i16::MAX as u64 { c.push((2, 2, true)); }
+                if *v <= u8::MAX as u64 { c.push((1, 1, false)); }
+                if *v <= i8::MAX as u64 { c.push((1, 1, true)); }
+                let (tyle, n, signed) = c[(mix(sel ^ ((k as u64 + 1) << 40)) % c.len() as u64) as usize];
+                put32(&mut p, tyle | if signed { 0x20 } else { 0x40 });
+                let bytes = v.to_le_bytes();
+                if be { p.extend(bytes[..n].iter().rev()); } else { p.extend_from_slice(&bytes[..n]); }
+            }
+        }
+    }
+    (args.len() as u8, p, be)
+}
+
+fn build_msg(index: u32, it: &Item, trs: &[Tr], enc: u8) -> DltMessage {
     if it.t == 0 && it.noise < 100 {
         let t0 = &trs[0];
         return match it.noise % 6 {
@@ -121,6 +169,22 @@ fn build_msg(index: u32, it: &Item, trs: &[Tr]) -> DltMessage {
     let tr = &trs[it.owner - 1];
     // noise >= 100: a copy of a data package sent by ANOTHER application id (only used when the plugin filters by apid)
     let apid = if it.noise >= 100 { "XXXX" } else { "APID" };
+    if enc == 1 {
+        let sel = (index as u64) << 8 | tr.serial as u64 % 251;
+        let mut name0 = tr.name.clone().into_bytes();
+        name0.push(0);
+        let name_arg = if tr.name.is_ascii() && mix(sel ^ 77) & 1 == 1 { A::Asc(&name0) } else { A::Utf(&name0) };
+        let (noar, p, be) = match it.k {
+            "FLST" => enc_args(sel, &[A::Asc(b"FLST\0"), A::Num(tr.serial as u64), name_arg, A::Num(tr.data.len() as u64), A::Utf(b"2022-06-02 21:54:00\0"), A::Num(tr.lens.len() as u64), A::Num(tr.bs as u64), A::Asc(b"FLST\0")]),
+            "FLDA" => enc_args(sel, &[A::Asc(b"FLDA\0"), A::Num(tr.serial as u64), A::Num(it.pkg as u64), A::Raw(&it.payload), A::Asc(b"FLDA\0")]),
+            _ => enc_args(sel, &[A::Asc(b"FLFI\0"), A::Num(tr.serial as u64), A::Asc(b"FLFI\0")]),
+        };
+        let mut m = base_msg(index, tr.ecu, tr.lc, apid, noar, p);
+        if be {
+            m.standard_header.htyp |= 0x02;
+        }
+        return m;
+    }
     let (noar, p) = match it.k {
         "FLST" => dlt_args!(
             asc(b"FLST\0"),
@@ -233,7 +297,7 @@ struct Dirs {
 
 fn hdr_json(cfg: &Cfg, trs: &[Tr], wire: &[Item], src: &str, envs: &[Value]) -> Value {
     json!({
-        "cfg": {"allow_save": cfg.allow_save, "auto": cfg.auto, "keep_flda": cfg.keep_flda, "apid_filter": cfg.apid_filter, "glob": cfg.glob},
+        "cfg": {"allow_save": cfg.allow_save, "auto": cfg.auto, "keep_flda": cfg.keep_flda, "apid_filter": cfg.apid_filter, "glob": cfg.glob, "enc": cfg.enc},
         "tr": trs.iter().map(|t| json!({"lens": t.lens, "size": t.data.len(), "hash": hash31(&t.data), "pre": t.pre, "name": t.name,
                 "base": base_name(t.name_class, t.idx, t.serial), "base_id": t.base_id,
                 "name_class": t.name_class, "key": {"ecu": t.ecu, "lc": t.lc, "serial": t.serial}})).collect::<Vec<_>>(),
@@ -379,7 +443,7 @@ fn run_case(dirs: &Dirs, case: u64, cfg: &Cfg, trs: &mut Vec<Tr>, wire: &[Item],
                     }
                 }
             } else {
-                let mut m = build_msg(i as u32, it, trs_ro);
+                let mut m = build_msg(i as u32, it, trs_ro, cfg.enc);
                 fwd = plugin.process_msg(&mut m);
             }
             entries = project(&state.read().unwrap().value, trs_ro);
@@ -550,7 +614,7 @@ fn cfg_for(r: u64, idx: u64) -> Cfg {
         15 => (true, true),
         _ => (true, false),
     };
-    Cfg { allow_save, auto, keep_flda: (idx / 16) % 2 == 0, apid_filter: idx % 3 == 0, glob: if idx % 5 == 0 { "*.bin" } else { "*" } }
+    Cfg { allow_save, auto, keep_flda: (idx / 16) % 2 == 0, apid_filter: idx % 3 == 0, glob: if idx % 5 == 0 { "*.bin" } else { "*" }, enc: if idx % 4 == 1 { 1 } else { 0 } }
 }
 
 fn main() {
